@@ -199,6 +199,17 @@ interp_exp_only = interp_exp_numpy
 
 
 
+def _is_missing(value):
+    """
+    True for the placeholder (``None`` or a scalar NaN) that stands for
+    the mean or variance of an accumulator holding too few samples.
+
+    The test is made by value: ``x is np.nan`` does not survive the
+    pickling applied by an MPI gather.
+    """
+    return value is None or (np.ndim(value) == 0 and bool(np.isnan(value)))
+
+
 class OnlineVariance(object):
     """USes the M2 algorithm to compute the variance in a streaming fashion"""
 
@@ -288,7 +299,7 @@ class OnlineVariance(object):
                 continue
 
             #print('avg',avg)
-            if avg is not None and not avg is np.nan:
+            if not _is_missing(avg):
                 if average is None:
                     average = avg*cnt
                 else:
@@ -308,7 +319,7 @@ class OnlineVariance(object):
                     squares = cnt*(average - avg)**2
                 else:
                     squares += cnt*(average - avg)**2
-            if var is not np.nan:
+            if not _is_missing(var):
                 squares += cnt*var 
         # squares = counts*variances
         # squares += counts*(average - averages)**2
